@@ -112,7 +112,9 @@ var alsoRuns = map[string][]borrow{
 	// … and a session that somebody else ends is removed from the table only by the sweep, which runs for operators and
 	// services links: ending another session is therefore tied to that privilege (C13.E6), else the ended session lingers
 	"C17": {{prop: "C03", rules: []string{"K7"}}, {prop: "C03", keyHasAny: []string{"SessionExpiration", "LastActivity", "identifier literal"}},
-		{prop: "C13", rules: []string{"E6"}, keyHas: "ending another session"}},
+		{prop: "C13", rules: []string{"E6"}, keyHas: "ending another session"},
+		// … and a live session is never answered "No such session": the gates hand on the IRC server's verdict (C11.H1e)
+		{prop: "C11", rules: []string{"H1"}, keyHas: "does not decide by itself"}},
 }
 
 // Rule set registry: property id -> function.
